@@ -166,9 +166,9 @@ func tail(s []string, n int) []string {
 func account(def *PropDef, sc *Scenario, rr *RunResult, res *core.Result, run int) {
 	res.Steps += int64(rr.Steps)
 	if el := int64(rr.SimElapsed); el > 0 && el < int64(100*24*time.Hour) {
-		res.SimNs += el
+		res.SimNs += float64(el)
 	} else if el > 0 {
-		res.SimNs += int64(100 * 24 * time.Hour) // far-future deadline probes: capped at 100 days per run
+		res.SimNs += float64(100 * 24 * time.Hour) // far-future deadline probes: capped at 100 days per run
 	}
 	for k, v := range rr.Faults {
 		res.Fault(k, v)
